@@ -10,8 +10,8 @@
    never hang, no effect on other segments" for files WITHOUT checksums (.bsu, .cmi,
    .sst, .sfm, segmeta.json, pqmr, metrics blocks) is established by fault enumeration
    on the real code (harness c18), not by proof. *)
-From SigM Require Import Base Crc32 ChecksumFile.
-From SigP Require Import BaseProofs Crc32Proofs ChecksumFileProofs.
+From SigM Require Import Base Crc32 ChecksumFile MetaDecoders.
+From SigP Require Import BaseProofs Crc32Proofs ChecksumFileProofs MetaDecodersProofs.
 Open Scope N_scope.
 
 (* What the writer wrote is read back: every chunking a ++ m ++ b of the data (chunks
@@ -147,3 +147,94 @@ Theorem C18_write_block_is_chunk : forall (f p : list N) (rest : list (list N)),
   write_block f (p :: rest) = f ++ chunk (p ++ concat rest).
 Proof. exact write_block_is_chunk. Qed.
 Print Assumptions C18_write_block_is_chunk.
+
+(* ================= decoders of files WITHOUT checksums (repaired for C18) =================
+   Model: SigM.MetaDecoders.  Go slice expressions / binary readers are partial ([None] =
+   Go panics: slice or index out of range), every decoder has the switch [chk]:
+   true = the code with the bounds checks of fixes C18-blocksummary-bounds,
+   C18-cmi-record-validation, C18-metricnames-bounds (the current code), false = the code
+   before them.  "Never crash" for THESE decoders is now a theorem for every file content;
+   the pre-fix behaviour is kept as C18_prefix_*_refuted.  (Zstd, dictionary/TLV blocks,
+   pqmr, .sst, series and tags-tree readers remain covered by fault enumeration only.) *)
+
+(* ReadMetricNames (.mnm) *)
+Theorem C18_metric_names_decoder_never_panics : forall b : list N,
+  is_panic (read_metric_names true b) = false.
+Proof. exact read_metric_names_no_panic. Qed.
+Print Assumptions C18_metric_names_decoder_never_panics.
+
+Theorem C18_metric_names_roundtrip : forall names : list (list N),
+  Forall (fun nm => N.of_nat (length nm) < 65536) names ->
+  read_metric_names true (enc_metric_names names) = DOk names.
+Proof. exact mnm_roundtrip. Qed.
+Print Assumptions C18_metric_names_roundtrip.
+
+(* the repair changes the result only where the old code panicked *)
+Theorem C18_metric_names_fix_conservative : forall (b : list N) x,
+  read_metric_names false b = DOk x -> read_metric_names true b = DOk x.
+Proof. intros b x. apply mnm_fix_conservative. Qed.
+Print Assumptions C18_metric_names_fix_conservative.
+
+(* PRE-FIX (class metrics_mnm_length_panic): 5-byte file, first length byte 0x03 -> 0xFC *)
+Theorem C18_prefix_metric_names_refuted :
+  exists b : list N, read_metric_names false b = DPanic /\ read_metric_names true b = DErr.
+Proof. exact mnm_prefix_refuted. Qed.
+Print Assumptions C18_prefix_metric_names_refuted.
+
+(* ReadMetricsBlockSummaries (.mbsu) *)
+Theorem C18_mbsu_decoder_never_panics : forall b : list N, is_panic (read_mbsu true b) = false.
+Proof. exact read_mbsu_no_panic. Qed.
+Print Assumptions C18_mbsu_decoder_never_panics.
+
+(* PRE-FIX (class metrics_mbsu_truncated_panic): file cut inside the first record *)
+Theorem C18_prefix_mbsu_refuted :
+  exists b : list N, read_mbsu false b = DPanic /\ read_mbsu true b = DErr.
+Proof. exact mbsu_prefix_refuted. Qed.
+Print Assumptions C18_prefix_mbsu_refuted.
+
+(* ReadBlockSummaries (.bsu) *)
+Theorem C18_bsu_decoder_never_panics : forall b : list N, is_panic (read_bsu true b) = false.
+Proof. exact read_bsu_no_panic. Qed.
+Print Assumptions C18_bsu_decoder_never_panics.
+
+(* PRE-FIX (class bsu_truncated_block_summary_panic): a 2-byte .bsu *)
+Theorem C18_prefix_bsu_refuted :
+  exists b : list N, read_bsu false b = DPanic /\ read_bsu true b = DErr.
+Proof. exact bsu_prefix_refuted. Qed.
+Print Assumptions C18_prefix_bsu_refuted.
+
+(* readRangeIndexFromByteArray (range-index record of a .cmi) *)
+Theorem C18_range_index_decoder_never_panics : forall b : list N,
+  is_panic (read_range_index true b) = false.
+Proof. exact read_range_index_no_panic. Qed.
+Print Assumptions C18_range_index_decoder_never_panics.
+
+(* PRE-FIX (class cmi_range_index_length_panic): key length 0x00FF in a 4-byte record *)
+Theorem C18_prefix_range_index_refuted :
+  exists b : list N, read_range_index false b = DPanic /\ read_range_index true b = DErr.
+Proof. exact ri_prefix_refuted. Qed.
+Print Assumptions C18_prefix_range_index_refuted.
+
+(* bloom record of a .cmi: what bitset.New is asked to allocate never exceeds the record *)
+Theorem C18_bloom_alloc_bounded : forall b : list N, snd (read_bloom true b) <= N.of_nat (length b).
+Proof. exact bloom_fixed_alloc_bounded. Qed.
+Print Assumptions C18_bloom_alloc_bounded.
+
+(* ... and an accepted bloom has m > 0 (BloomFilter.Test computes  h mod m) *)
+Theorem C18_bloom_accepted_m_nonzero : forall (b : list N) h,
+  fst (read_bloom true b) = DOk h -> bl_m h <> 0.
+Proof. exact bloom_fixed_m_nonzero. Qed.
+Print Assumptions C18_bloom_accepted_m_nonzero.
+
+(* PRE-FIX (class bloom_cmi_length_oom): a 32-byte bloom asks for more than 1 TiB *)
+Theorem C18_prefix_bloom_alloc_refuted :
+  exists b : list N, length b = 32%nat /\ 1099511627776 <= snd (read_bloom false b) /\
+                     fst (read_bloom true b) = DErr.
+Proof. exact bloom_prefix_alloc_refuted. Qed.
+Print Assumptions C18_prefix_bloom_alloc_refuted.
+
+(* PRE-FIX (class cmi_bloom_zero_size_divide_panic): a bloom with m = 0 was accepted *)
+Theorem C18_prefix_bloom_zero_m_refuted :
+  exists (b : list N) h, fst (read_bloom false b) = DOk h /\ bl_m h = 0 /\ fst (read_bloom true b) = DErr.
+Proof. exact bloom_prefix_zero_m_refuted. Qed.
+Print Assumptions C18_prefix_bloom_zero_m_refuted.
